@@ -3,6 +3,9 @@ package tsdbsim
 import (
 	"fmt"
 	"math"
+	"os"
+
+	"verif/sim/core/simfs"
 
 	dto "github.com/prometheus/client_model/go"
 
@@ -13,7 +16,9 @@ import (
 // noTombstones shows a block reader's raw contents (deleted samples still count as head contents).
 type noTombstones struct{ tsdb.BlockReader }
 
-func (noTombstones) Tombstones() (tombstones.Reader, error) { return tombstones.NewMemTombstones(), nil }
+func (noTombstones) Tombstones() (tombstones.Reader, error) {
+	return tombstones.NewMemTombstones(), nil
+}
 
 func (e *exec) gauge(name string) (float64, bool) {
 	mfs, err := e.reg.Gather()
@@ -55,6 +60,10 @@ func (e *exec) countersVsContents(where string) {
 	}
 	e.res.Evals++
 	fail := func(sig, format string, a ...any) {
+		if debugOn {
+			os.RemoveAll("/dev/shm/verif-keep")
+			simfs.CopyTree(e.dir, "/dev/shm/verif-keep")
+		}
 		e.fail("counters-vs-contents", sig, "%s: "+format, append([]any{where}, a...)...)
 	}
 	if got := h.NumSeries(); got != uint64(len(walk)) {
